@@ -103,11 +103,15 @@ def matrix(names):
             print(name, "patch does not apply", out); continue
         meta = json.load(open(os.path.join(d, "meta.json")))
         res = meta.setdefault("matrix", {})
-        for pid in all_ids:
+        def one(pid):
             rc, out = sh("./check %s --tier quick" % pid, cwd=VERIF, timeout=3600,
                          env={"CFI_REPO": wt, "VERIF_SCRATCH": scratch, "VERIF_EVIDENCE_DIR": scratch + "/evidence"})
             viol = [l for l in out.splitlines() if l.startswith("VIOLATION")]
-            res[pid] = {"exit": rc, "no_failing_input": bool(viol) and all("no-failing-input-found" in l for l in viol)}
+            return pid, {"exit": rc, "no_failing_input": bool(viol) and all("no-failing-input-found" in l for l in viol)}
+        import concurrent.futures
+        with concurrent.futures.ThreadPoolExecutor(max_workers=int(os.environ.get("MATRIX_JOBS", "6"))) as ex:
+            for pid, r in ex.map(one, all_ids):
+                res[pid] = r
         meta["matrix_caught_by"] = sorted(p for p, r in res.items() if r["exit"] != 0)
         json.dump(meta, open(os.path.join(d, "meta.json"), "w"), indent=1)
         print(name, "caught by", meta["matrix_caught_by"], flush=True)
